@@ -2,6 +2,7 @@
 from __future__ import annotations
 
 import ast
+import re
 from typing import Dict, List, Optional, Set, Tuple
 
 from ..cfg import CFG, Node, STMT, TEST, FOR, WITH, run_typestate, fmt_path
@@ -384,6 +385,18 @@ def r_sibling_exc(ctx: RuleCtx, col: Collector):
                     else:
                         out.add(U(h.type))
                 return out
+            # inside one try statement the fallback in the handler applies the same part function as the body
+            for t in lst:
+                parts_body = set(re.findall(r"\b(real|imag)\b", "\n".join(U(s_) for s_ in t.body)))
+                for h in t.handlers:
+                    parts_h = set(re.findall(r"\b(real|imag)\b", "\n".join(U(s_) for s_ in h.body)))
+                    if parts_body and parts_h and parts_h != parts_body:
+                        col.bad(where_of(f), f.rel, line_of(h), stmt_key(h.body[0]),
+                                f"the fallback in the handler takes the {sorted(parts_h)} part although the guarded statement "
+                                f"takes the {sorted(parts_body)} part: for values that need the fallback (scalars) the "
+                                f"wrong component is reported")
+                    elif parts_body and parts_h:
+                        col.ok(where_of(f), f.rel, line_of(h), stmt_key(h.body[0]), f"fallback uses the same part {sorted(parts_h)}")
             ref = types(lst[0])
             for t in lst[1:]:
                 if types(t) != ref:
